@@ -115,49 +115,81 @@ structure GState where
   dataLen : Nat
   cap : Nat
 
-/-- One `has_capacity` / `append` / `clip_dim` step; `none` = outside the model (`skip`). -/
+def ofN (d : List (Nat × Nat)) : List (U × U) := d.map (fun p => (p.1.toUInt64, p.2.toUInt64))
+
+def stateStr (st : GState) : String :=
+  s!"@{showList (st.dims.map (fun d => d.1.toNat))}|{showList (st.dims.map (fun d => d.2.toNat))}"
+
+/-- One step of a program on an owned tensor. A failing call leaves the state unchanged
+(that is what the fixed code does; the harness reports the layout after every call). -/
 def growOp (nd : Bool) (st : GState) (op : String) : Option (GState × String) :=
   let ndim := st.dims.length
-  match op.splitOn ":" with
-  | ["hc", arg] =>
-    match parseList arg with
-    | some [axis, n] =>
-      if axis ≥ ndim then (if nd then some (st, "panic") else none)
-      else some (st, b01 (M.expandedLayout st.dims st.cap.toUInt64 axis n.toUInt64).isSome)
-    | _ => none
-  | ["ap", arg] =>
-    match arg.splitOn "/" with
-    | [ax, sh] =>
-      match ax.toNat?, parseList sh with
-      | some axis, some o =>
-        if (nd && o.length != ndim) || (checkedShapeLen o).isNone then some (st, "noother")
-        else
-          let od := o.map (fun s => (s, 0))
-          let dn := M.toN st.dims
-          if !shapeMatch dn od axis then some (st, "err:shape")
-          else if axis ≥ ndim then (if nd then some (st, "panic") else none)
+  let dn := M.toN st.dims
+  let r : Option (GState × String) :=
+    match op.splitOn ":" with
+    | ["hc", arg] =>
+      match parseList arg with
+      | some [axis, n] =>
+        if axis ≥ ndim then some (st, "panic")
+        else some (st, b01 (M.expandedLayout st.dims st.cap.toUInt64 axis n.toUInt64).isSome)
+      | _ => none
+    | ["ap", arg] =>
+      match arg.splitOn "/" with
+      | [ax, sh] =>
+        match ax.toNat?, parseList sh with
+        | some axis, some o =>
+          if (nd && o.length != ndim) || (checkedShapeLen o).isNone then some (st, "noother")
           else
-            let newSize := ((sizeAt dn axis + sizeAt od axis) % wordSize).toUInt64
-            match M.expandedLayout st.dims st.cap.toUInt64 axis newSize with
-            | none => some (st, "err:cap")
-            | some nl =>
-              let dl := max st.dataLen (M.minDataLen nl).toNat
-              some ({ st with dims := nl, dataLen := dl },
-                s!"ok[{showList (nl.map (fun d => d.1.toNat))}]dl={dl}")
-      | _, _ => none
-    | _ => none
-  | ["cl", arg] =>
-    match parseList arg with
-    | some [dim, s, e] =>
-      if dim ≥ ndim && !nd then none
-      else
-        match clipDim ⟨M.toN st.dims, st.dataLen, st.cap⟩ dim s e with
+            -- the function `c06_T2_append` is about
+            match append ⟨dn, st.dataLen, st.cap⟩ axis (o.map (fun s => (s, 0))) with
+            | .error e => some (st, e.toString)
+            | .ok t =>
+              some ({ st with dims := ofN t.dims, dataLen := t.dataLen },
+                s!"ok[{showList (shapeOf t.dims)}]dl={t.dataLen}")
+        | _, _ => none
+      | _ => none
+    | ["cl", arg] =>
+      match parseList arg with
+      | some [dim, s, e] =>
+        match clipDim ⟨dn, st.dataLen, st.cap⟩ dim s e with
         | none => some (st, "panic")
         | some t =>
-          some ({ st with dims := t.dims.map (fun d => (d.1.toUInt64, d.2.toUInt64)), dataLen := t.dataLen },
+          some ({ st with dims := ofN t.dims, dataLen := t.dataLen },
             s!"ok[{showList (shapeOf t.dims)}]dl={t.dataLen}")
+      | _ => none
+    | ["ra", arg] =>
+      match arg.toNat? with
+      | some i =>
+        if nd then some (st, "n/a")
+        else match removeAxis dn i with
+          | none => some (st, "panic")
+          | some d => some ({ st with dims := ofN d }, "ok")
+      | none => none
+    | ["ia", arg] =>
+      match arg.toNat? with
+      | some i =>
+        if nd then some (st, "n/a")
+        else match insertAxis dn i with
+          | none => some (st, "panic")
+          | some d => some ({ st with dims := ofN (d.map (fun p => (p.1, p.2 % wordSize))) }, "ok")
+      | none => none
+    | ["mv", arg] =>
+      match parseList arg with
+      | some [f, t] =>
+        match moveAxis dn f t with
+        | none => some (st, "panic")
+        | some d => some ({ st with dims := ofN d }, "ok")
+      | _ => none
+    | ["sz", arg] =>
+      match arg.toNat? with
+      | some d => some (st, match sizeOf? dn d with | some x => toString x | none => "panic")
+      | none => none
+    | ["sd", arg] =>
+      match arg.toNat? with
+      | some d => some (st, match strideOf? dn d with | some x => toString x | none => "panic")
+      | none => none
     | _ => none
-  | _ => none
+  r.map (fun (st', a) => (st', a ++ stateStr st'))
 
 def growOps (nd : Bool) : GState → List String → Option (List String)
   | _, [] => some []
